@@ -211,6 +211,9 @@ func (f *Frame) modelCallFull(key string, sig *types.Signature, vals []Val, args
 		vc.declareFun("ctx_done", []Sort{SIface}, SInt)
 		rc := f.getCell(f.cur, "ghost:recvd", "(Array Int Bool)")
 		vc.assume(implies(sx("select", rc, sx("ctx_done", vals[0].t)), sx("distinct", sx("i_typ", r.t), "0")))
+		// a context that is hypothesised to stay live (C11 acceptance conditions) reports no error
+		vc.P.needSym["StaysLive"] = true
+		vc.assume(implies(sx("StaysLive", vals[0].t), eq(sx("i_typ", r.t), "0")))
 		return r, true
 	case "iface:context.Context.Done":
 		vc.used["A-STD"] = true
